@@ -28,6 +28,21 @@ CHECKS.update({
  "C20": node("§8 C20, §5 E-NODE + process restarts", "deterministic simulation of reorgs relative to the proposal window with clean restarts (new OS process) at arbitrary operation indexes",
    "After every tip change and after every restart (start-up reconstruction path) the snapshot's proposal view {set, gap} must equal the union over the model's window, for windows 1..3 / 2..11, chains shorter than the window and reorgs deeper than it."),
 })
+CHECKS["C08"] = dict(engine="simnode", category="fault_enumeration", design_ref="§8 C08, §5 E-CRASH",
+   technique="deterministic simulation with process death injected at every durable write of a seeded import history (restart = new OS process on the same directories), checked against the replay model",
+   text="For each seeded block-import history a fault-free run counts the durable writes W; then EVERY write index 1..W x {before, after} is tried as a process death (libc::_exit in the ckb-db write hook), plus seeded double crashes during recovery. After each restart: reopen succeeds, the store equals the model's replay of the tip it reports, work never decreases, stored-unverified blocks are picked up, the proposal view matches; after the remaining deliveries the node reaches the heaviest valid chain and the never-crashed state. Fault enumeration is right because the crash-point space of one history is finite (W writes); histories are sampled.",
+   note=NODE_NOTE + " Crash model: process death, not power loss below the OS page cache.")
+POOL_NOTE = NODE_NOTE + " Pool task mode: the tx-pool service loops are replaced by hand-polled futures with explicit yield points (ckb_tx_pool::verif); interleavings are explored at task and yield-point granularity, not at every await."
+def pool(design, technique, text):
+    return dict(engine="simnode", category="exploration", design_ref=design, technique=technique, text=text, note=POOL_NOTE)
+CHECKS.update({
+ "C11": pool("§8 C11, §5 E-NODE pool task mode", "deterministic simulation of pool operation histories (submit/RBF/remove/expire/evict/reorg) with hand-polled pool tasks; full recomputation of the pool's bookkeeping from a dump after every task",
+   "After every completed pool task the dump of entries, links, edges, ancestor/descendant aggregates, per-status counters and totals is recomputed from the entries alone and compared; the ancestor limit and double-spend freedom are checked. Two genuine defects in the incremental aggregate maintenance were found and fixed."),
+ "C12": pool("§8 C12, §5 E-NODE pool task mode", "deterministic simulation interleaving submissions (suspended at yield points), mined templates and model-built competing branches; pool vs reference-chain model at quiescent points",
+   "At every quiescent point the pool must hold no committed transaction, no transaction whose input/dep is unknown to chain+pool, no double spend, and every entry's stage must equal the model's proposal-window membership. Three genuine defects (stale gap stage after reorg, expiry orphaning descendants, children of un-re-addable detached transactions) were found and fixed. The 'admissible detached txs are back' direction is not asserted."),
+ "C13": pool("§8 C13, §5 E-NODE pool task mode", "deterministic simulation: templates requested at simulator-chosen instants are sealed and fed to the node's own chain stages; self-oracle plus independent model re-derivation",
+   "Every template requested (also while block-assembler updates are still queued, right after reorgs, with uncles/proposals/commits) is sealed and imported by the same node: it must be accepted and become the tip when it names the tip, transactions parents-first; the reference model re-derives epoch, reward, DAO, chain root, window and uncle rules for each. Templates naming a stale parent are only stored as side blocks; they are counted as not verified, never as passes."),
+})
 
 NA = {
  "C15": "pure encode/decode and hash functions of one value: no schedule, clock, fault or interleaving for a simulator to own (DESIGN.md §8 C15)",
